@@ -262,7 +262,10 @@ class PfrAdapter(Adapter):
         return obj.get_config(diff=diff)
 
     def size(self, inst, obj, data):
-        return self._cls(inst).BINARY_SIZE
+        # the database documents the page size where it has a `size` entry (PFR: 512); else the class constant
+        cls = self._cls(inst)
+        db_size = _db_get(inst["family"], inst["revision"], cls.FEATURE_NAME, [inst["sub"], "size"], None)
+        return int(db_size) if isinstance(db_size, int) and not isinstance(db_size, bool) else cls.BINARY_SIZE
 
     def cli_main(self, inst=None):
         if inst and inst["sub"] in ("romcfg", "cmactable"):
